@@ -367,10 +367,22 @@ func checkC10(r *vt.Run) {
 		focus := c.Aggressive && c.Nodes[1] == healthy && c.Master == 0 && c.Nodes[0].Exec == 0 && c.Nodes[0].RO && !c.Nodes[0].Offline && c.Nodes[0].SS &&
 			c.Nodes[0].Source == srcMaster && (c.Nodes[0].Threads == thSQLErrPersistent || c.Nodes[0].Threads == thIOError)
 		// ... and the repair of a stale master (every statement of its re-pointing and marking)
-		focus = focus || c.Nodes[1] == healthy && c.Master == 0 && c.Nodes[0].Source == srcNone && c.Nodes[0].Exec == 1 && c.Nodes[0].SS
+		focus = focus || c.Nodes[1] == healthy && c.Master <= 1 && c.Nodes[0].Source == srcNone && c.Nodes[0].Exec == 1 && c.Nodes[0].SS
 		if focus || r.Thorough() && c.Nodes[1] == healthy && (idx%7 == 0 || c.Nodes[0].Threads >= thIOError || c.Nodes[0].Source == srcNone) {
 			// one failing state-changing call at every call of every iteration (b = 1)
 			for i, p := range pts {
+				// with a stale master around: one failing READ of the recorded-master key (dropped connection,
+				// and an error the client does not retry) - the fallback must not re-learn the master wrongly
+				if !p.Fails && !p.Mut && p.Kind == "zk" && p.Target == vns+"/master" && c.Nodes[0].Source == srcNone {
+					for fl := 0; fl < 2; fl++ {
+						r.Count("deviations_b1_master_key_read")
+						d := sim.Deviation{At: i, Kind: sim.DevErr, Arg: fl}
+						cc := c
+						cc.Dev = &d
+						r.Crumb(cc)
+						c10Run(r, cc)
+					}
+				}
 				if p.Fails || !p.Mut {
 					continue
 				}
